@@ -229,3 +229,41 @@ def r3(ctx):
 def r6(ctx):
     from .c07 import r2 as control_frames_reported
     control_frames_reported(ctx)
+
+
+@rule("R-C16-7", min_instances=4, title="a responsive peer is never reported while the ping thread stamps a new ping: check() decides on one consistent snapshot of last_ping_tm (one preemption by the ping thread at every statement boundary)")
+def r7(ctx):
+    """The ping thread writes last_ping_tm, the reading loop's check() reads it.  For a peer that answered the previous ping
+    in time, the ping thread's next stamp is injected at every statement boundary of check() (and of whatever helpers it
+    calls); no schedule may report a timeout."""
+    loc = ctx.index.loc(ctx.index.func(CHECK).node)
+    grid = [(10.0, 100.0, 101.0), (10.0, 100.0, 109.9), (0.5, 7.0, 7.25)] + ([(30.0, 1e9, 1e9 + 1), (1.0, 50.0, 50.999)] if ctx.tier == "thorough" else [])
+    for T, P, G in grid:
+        for N in (P + T + T / 10, P + 2 * T, P + T + 1e-3):
+            def action(I, run, st, N=N):
+                app = next(Ref(a) for a, c in run.heap.items() if getattr(c, "label", "") == "app")
+                run.effect("--ping thread: last_ping_tm = now; ping sent")
+                run.cell(app).fields["last_ping_tm"] = C(float(N))
+
+            st = sock_stubs(extra={"time.time": lambda I, run, a, k, n, N=N: C(float(N))})
+            cfg = Config(stubs=st)
+            cfg.preempt_in = {CHECK, "*"}
+            cfg.preempt_action = action
+            I = Interp(ctx.index, cfg)
+
+            def closure(run, T=T, P=P, G=G):
+                app = mk_app(I, run, ping_timeout=C(T), last_ping_tm=C(P), last_pong_tm=C(G))
+                run.memo["@preempt_armed"] = True
+                return closure_env(run, app)
+
+            outs = ctx.count_paths(I.explore_call(CHECK, lambda run: ([], {}), closure))
+            pre = [o for o in outs if o.run.memo.get("@preempted")]
+            if len(pre) < 2:
+                raise AnalysisError("fewer than two preemption points in check()")
+            bad = [o for o in outs if o.kind == "raise"]
+            ctx.ob(f"{CHECK}:responsive-peer:T={T}:ping={P}:pong={G}:now={N}", not bad,
+                   f"{len(outs)} schedules ({len(pre)} with the ping thread's stamp in between): no timeout for a peer that answered in {G - P:g}s" if not bad else
+                   f"ping at {P} answered at {G} (timeout {T}); at {N} the ping thread stamps the next ping while check() runs (preempted at {bad[0].run.memo.get('@preempted')}): "
+                   f"check() raises {bad[0].exc_class} -- it mixes the old and the new last_ping_tm; a responsive peer is reported as timed out",
+                   bad[0].run.memo.get("@preempted") or loc if bad else loc, {"path": path_text(bad[0])} if bad else None)
+
